@@ -43,6 +43,9 @@ type c04In struct {
 
 func genContent(r *Rand, tag string) string {
 	n := r.Pick(0, 1, 2, 17, 100, 1000, 4096)
+	if r.Chance(1, 30) {
+		n = r.Pick(32768, 32769, 70000) // around and past io.Copy's buffer
+	}
 	if n == 0 {
 		return ""
 	}
